@@ -141,6 +141,18 @@ def synthetic_task(task):
                             prop._rng = kernel._rng
                             for _ in range(3):
                                 prop._propose_new_node()
+                # a parent particle whose tree is re-assigned (as the subtree sampler re-assigns the trees of its swarm) and
+                # which then serves as a parent again: the memoised result must follow the particle's current tree
+                td.prior.alpha = 1.0
+                g2 = gen.random_forest(rng, n, max_children=4, p_outlier=0.3 if op > 0 else 0.0)
+                if g2.key() != f.key():
+                    from phyclone.smc.swarm import TreeHolder
+                    pr = parents[0]
+                    kernel.get_proposal_distribution(data[n], pr, None)
+                    pr.tree = TreeHolder(gen.build_tree(g2, data)[0], td, perm)
+                    kernel.get_proposal_distribution(data[n], pr, None)
+                    part.count("evaluations", 2)
+                    part.count("reassigned_parent_particles")
                 part.see("proposal|%s|%s|%s" % (kcls.__name__, op, gen.key_str(f.key())))
                 td.prior.alpha = 1.0
     except Exception as e:
